@@ -104,6 +104,7 @@ type c10Case struct {
 
 // C10: image linearise/encode is the per-pixel function, everywhere and only there.
 func C10(tier string) {
+	crashGuard("C10", tier, "exploration")
 	r := ev.Begin("C10", tier, "exploration")
 	shapes := c10Shapes(tier)
 	r.Rule(fmt.Sprintf("complete product: %d source types x %d destination types x %d bounds shapes (origins negative/zero/positive for source and destination independently, empty, 1xN, Nx1, destination larger than source, source and destination as sub-images of larger parents) x parallelism {1,2,3,7,16,rows+5} x %d transforms, plus in-place runs where types match; every byte of the destination parent's backing array is compared; distinct = configurations with a non-empty source", len(c10SrcKinds), len(c10DstKinds), len(shapes), len(imgTransforms)))
